@@ -556,7 +556,7 @@ def _convert_parameter(parameter: SignatureParameter, parent: Module | Class) ->
         default = "{}"
     elif parameter.default is _empty:
         default = None
-    elif hasattr(parameter.default, "__name__"):
+    elif isinstance(getattr(parameter.default, "__name__", None), str):
         # Avoid `repr` containing chevrons and memory addresses.
         default = parameter.default.__name__
     else:
